@@ -1,3 +1,43 @@
-From Baize Require Import C03.Model.
-Theorem placeholder : True. Proof. exact I. Qed.
-Print Assumptions placeholder.
+(* C03 — A Range header resolves to the canonical set of satisfiable byte ranges.
+   Statements only; every proof is a reference to C03/Proofs.v. *)
+From Coq Require Import List NArith ZArith.
+From Baize Require Import Lib.Wire C03.Model C03.Proofs.
+Import ListNotations.
+Local Open Scope Z_scope.
+
+(* Layer A — every header text, every size: an accepted header yields ranges that
+   are non-empty, lie within [0,size), strictly ascending, disjoint, non-adjacent. *)
+Theorem range_canonical : forall (header : list N) (size : Z) (l : list (Z * Z)),
+  parse_range header size = Ranges l ->
+  l <> [] /\ Forall (fun r => 0 <= fst r /\ fst r < snd r /\ snd r <= size) l /\ ascending l.
+Proof. exact range_canonical_proof. Qed.
+
+(* Layer B — the union of the returned ranges is exactly the set of positions the
+   header's specs denote after clipping to the file. *)
+Theorem range_denotation : forall (header : list N) (size : Z) (l : list (Z * Z)),
+  parse_range header size = Ranges l ->
+  exists specs, header_specs header = Some specs /\
+    forall p, (exists r, In r l /\ fst r <= p < snd r) <->
+              (exists s, In s specs /\ denotes size s p).
+Proof. exact range_denotation_proof. Qed.
+
+(* Classification: 416 iff some spec starts at/after the end or is a zero/over-long
+   suffix; otherwise 400 iff there is no spec or some first > last; otherwise ranges. *)
+Theorem range_classification : forall (header : list N) (size : Z) (specs : list spec),
+  header_specs header = Some specs ->
+  (parse_range header size = Unsatisfiable <-> Exists (unsat size) specs) /\
+  (parse_range header size = Malformed <->
+     specs = [] \/ (~ Exists (unsat size) specs /\ Exists inverted specs)) /\
+  ((exists l, parse_range header size = Ranges l) <->
+     specs <> [] /\ ~ Exists (unsat size) specs /\ ~ Exists inverted specs).
+Proof. exact range_classification_proof. Qed.
+
+(* The merge loop as it was before the repair does not satisfy range_canonical. *)
+Theorem merge_orig_refuted :
+  exists size specs l, resolve_orig size specs = Ranges l /\ ~ canonical size l.
+Proof. exact orig_not_canonical. Qed.
+
+Print Assumptions range_canonical.
+Print Assumptions range_denotation.
+Print Assumptions range_classification.
+Print Assumptions merge_orig_refuted.
